@@ -1,5 +1,6 @@
 """C15 DDDMP: writer/reader tables"""
 import edddmp
+import etaint
 import elin
 import eunits
 
@@ -16,6 +17,13 @@ def run(ctx):
                 "E-UNITS: the exporter/importer never mix variable numbers and level numbers (.orderedvarnames, .ids, "
                 ".permids are permutations of each other). E-LIN: the importer releases every edge on its error paths.")
     edddmp.run(ctx, F)
+    ctx.explain("E-DDDMP.taint: MIR taint analysis of dddmp::import: a number decoded from the file reaches no index, "
+                "subtraction or allocation size without a dominating comparison or a checked / clamping operation. "
+                "E-DDDMP.deadcheck: no overflow check relies on checked_shl with a constant amount.")
+    n = etaint.run(ctx, F)
+    ctx.floor("E-DDDMP.taint", "index / subtraction / allocation sinks examined", n, 25)
+    n = etaint.check_dead_overflow_checks(ctx, F)
+    ctx.floor("E-DDDMP.deadcheck", "oxidd-dump bodies scanned", n, 100)
     ctx.explain("E-DDDMP.strict: every sortedness validation of an id list in the importer rejects equal neighbours "
                 "(duplicate ids are malformed input that later code would panic on).")
     n = edddmp.check_strict_sortedness(ctx, F)
